@@ -21,6 +21,7 @@ const c05Sentinel = 0xA5
 // ---- encoder + round trip on one value --------------------------------------------------
 
 type c05Scratch struct {
+	exact [16]byte
 	buf  [16]byte
 	bb   bytes.Buffer
 	rd   bytes.Reader
@@ -29,7 +30,16 @@ type c05Scratch struct {
 
 func c05CheckVarInt(v int32, s *c05Scratch) *pbt.Violation {
 	want := leb.Encode(uint64(uint32(v)), 32)
+	for i := range s.buf {
+		s.buf[i] = 0xC3
+	}
 	n := pk.VarInt(v).WriteToBytes(s.buf[:])
+	if n >= 0 && n < len(s.buf) && (s.buf[n] != 0xC3 || s.buf[len(s.buf)-1] != 0xC3) {
+		return pbt.V("varint.encode.overrun", "WriteToBytes writes exactly Len() bytes", "VarInt(%d).WriteToBytes returned %d but also wrote beyond it: % x", v, n, s.buf[:n+2])
+	}
+	if pv, _ := pbt.Try(func() { pk.VarInt(v).WriteToBytes(s.exact[:len(want)]) }); pv != nil {
+		return pbt.V("varint.encode.exactbuf", "a buffer of Len() bytes is large enough", "VarInt(%d).WriteToBytes into a %d-byte buffer panicked: %v", v, len(want), pv)
+	}
 	if n != len(want) || !bytes.Equal(s.buf[:n], want) {
 		return pbt.V("varint.encode", "minimal LEB128", "VarInt(%d).WriteToBytes = % x (n=%d), want % x", v, s.buf[:max0(n)], n, want)
 	}
@@ -66,7 +76,16 @@ func max0(n int) int {
 
 func c05CheckVarLong(v int64, s *c05Scratch) *pbt.Violation {
 	want := leb.Encode(uint64(v), 64)
+	for i := range s.buf {
+		s.buf[i] = 0xC3
+	}
 	n := pk.VarLong(v).WriteToBytes(s.buf[:])
+	if n >= 0 && n < len(s.buf) && (s.buf[n] != 0xC3 || s.buf[len(s.buf)-1] != 0xC3) {
+		return pbt.V("varlong.encode.overrun", "WriteToBytes writes exactly Len() bytes", "VarLong(%d).WriteToBytes returned %d but also wrote beyond it: % x", v, n, s.buf[:n+2])
+	}
+	if pv, _ := pbt.Try(func() { pk.VarLong(v).WriteToBytes(s.exact[:len(want)]) }); pv != nil {
+		return pbt.V("varlong.encode.exactbuf", "a buffer of Len() bytes is large enough", "VarLong(%d).WriteToBytes into a %d-byte buffer panicked: %v", v, len(want), pv)
+	}
 	if n != len(want) || !bytes.Equal(s.buf[:n], want) {
 		return pbt.V("varlong.encode", "minimal LEB128", "VarLong(%d).WriteToBytes = % x (n=%d), want % x", v, s.buf[:max0(n)], n, want)
 	}
@@ -96,6 +115,8 @@ type C05Dec struct {
 	Long  bool   `json:"long"`
 	Plain bool   `json:"plain"` // deliver through a plain io.Reader (no ReadByte)
 	Bytes []byte `json:"bytes"`
+	// EOFData: the source returns its last byte together with io.EOF (allowed by io.Reader)
+	EOFData bool `json:"eof_with_data,omitempty"`
 }
 
 func c05CheckDecode(c C05Dec) *pbt.Violation {
@@ -104,6 +125,10 @@ func c05CheckDecode(c C05Dec) *pbt.Violation {
 		bits, maxLen, name = 64, 10, "varlong"
 	}
 	src := iox.NewSrc(c.Bytes)
+	src.EOFWithData = c.EOFData
+	if c.EOFData {
+		src.Plan = []int{1}
+	}
 	var r io.Reader = iox.ByteSrc{Src: src}
 	if c.Plain {
 		r = iox.Plain{R: src}
@@ -236,7 +261,7 @@ func TestC05EnumDecode(t *testing.T) {
 			b = []byte{byte(j >> 16), byte(j >> 8), byte(j)}
 		}
 		for _, long := range []bool{false, true} {
-			c := C05Dec{Long: long, Plain: i&1 == 1, Bytes: b}
+			c := C05Dec{Long: long, Plain: i&1 == 1, Bytes: b, EOFData: i&2 == 2}
 			if viol := c05CheckDecode(c); viol != nil {
 				pbt.Fail(t, "C05EnumDecode", c, viol)
 				return
@@ -329,7 +354,7 @@ var c05Dec = pbt.Register(pbt.Prop[C05Dec]{
 			b = append(b, rapid.Byte().Draw(t, "last")&0x7F)
 			b = append(b, rapid.SliceOfN(rapid.Byte(), 0, 6).Draw(t, "tail")...)
 		}
-		return C05Dec{Long: rapid.Bool().Draw(t, "long"), Plain: rapid.Bool().Draw(t, "plain"), Bytes: b}
+		return C05Dec{Long: rapid.Bool().Draw(t, "long"), Plain: rapid.Bool().Draw(t, "plain"), Bytes: b, EOFData: rapid.Bool().Draw(t, "eofdata")}
 	},
 	Check: c05CheckDecode,
 	Classify: func(c C05Dec) (bool, []string, []byte) {
